@@ -3,6 +3,7 @@ Driver glue for M-Kern: S-expression ⇄ `Kern.Op` / `Kern.Out`.  Not part of th
 -/
 import DefconModel.Util.SExp
 import DefconModel.Kern
+import DefconModel.Gen.KernTables
 
 namespace DefconModel
 namespace Kern
@@ -74,7 +75,29 @@ def encOut : Out → SExp
   | .bools l => tagged "bools" (l.map ofBool)
   | .err e => err e
 
+/-- the registration the source has now (all four tables carry the same one: obligation `gen_eviction_as_modelled`) -/
+def currentReg : Destr :=
+  match Gen.KernTables.groupsFactories with
+  | e :: _ => e.2.2
+  | [] => .coll []
+
+def isGroupEdit : Op → Bool
+  | .gset _ _ | .gdel _ | .gclear | .gupdate _ => true
+  | _ => false
+
 def driverStep (s : State) (line : SExp) : State × SExp :=
+  match line with
+  | .list [.atom "watch", opx, ps, d] =>
+    -- a group edit of a LOADED font with a watcher looking `ps` up inside every callback of the edit
+    match parseOp opx, asListOf? pair? ps, asInt? d with
+    | some op, some pairs, some dv =>
+      if isGroupEdit op && s.c.loaded then
+        let r := stepWatched currentReg pairs dv s op
+        (r.1, tagged "watched" [encOut r.2.1,
+          .list (r.2.2.map fun e => .list [.str e.1, .list (e.2.map ofInt)])])
+      else (s, .atom "bad-op")
+    | _, _, _ => (s, .atom "bad-op")
+  | _ =>
   match parseOp line with
   | none => (s, .atom "bad-op")
   | some op =>
